@@ -153,9 +153,18 @@ def check_tokens(res, b, toks, full, wit, kinds):
         bad("indent-dedent-unbalanced", {"open": indents})
 
 
+BACKSLASH_ONLY_LINE = re.compile(r"(?m)^[ \t]*\\$")
+
+
 def check_full_against_tokenize(res, text, b, toks, wit):
     """Second opinion for comments / non-logical newlines: CPython tokenize (only for LF-only, form-feed free text)."""
     if "\r" in text or "\x0c" in text or text.startswith("﻿"):
+        return
+    if BACKSLASH_ONLY_LINE.search(text):
+        # the tokenize module is not the tokenizer: it takes a physical line of blanks and a backslash for the start of a
+        # statement (INDENT, then NEWLINE at the end of the joined empty line); the compiler's tokenizer, the reference of
+        # C01/C08, joins it onto the next line and sees a blank line. No second opinion for such texts.
+        res.counters["tokenize second opinion skipped (backslash-only line)"] += 1
         return
     pt = derive.tokens(text)
     if not pt:
@@ -246,6 +255,25 @@ def workload(res):
     from .. import numlits
     for i, prog in enumerate(numlits.as_programs(numlits.boundary_literals(rng, thorough))):
         items.append(("numlits:%d" % i, prog, "exec"))
+    # every character on its own and between two names: whatever this lexer makes a token of (it takes characters with emoji
+    # presentation for names, for one) must get a range that spells it; texts that do not lex are outside the property
+    cps = list(range(0, 0x250)) + list(range(0x2000, 0x3400, 1 if thorough else 3)) + list(range(0x1F000, 0x1FB00, 1 if thorough else 3))
+    cps += list(range(0x250, 0x2000, 1 if thorough else 41)) + list(range(0x3400, 0x1F000, 7 if thorough else 211)) + list(range(0x1FB00, 0x30000, 7 if thorough else 509))
+    cps += [0xE0001, 0xE0100, 0xF0000, 0x10FFFF, 0xFE0F, 0x200D, 0xFEFF, 0xFFFD, 0x1F1E6, 0x1F3FB]
+    for cp in cps:
+        if 0xD800 <= cp <= 0xDFFF:
+            continue
+        ch = chr(cp)
+        items.append(("char:%04x" % cp, "a %s b\n" % ch, "exec"))
+        items.append(("char-alone:%04x" % cp, ch, "exec"))
+        if cp % 5 == 0:
+            items.append(("char-glued:%04x" % cp, "(%s%s,%s)\n" % (ch, ch, ch), "eval"))
+    # token soup: texts that need not be programs, only lex
+    alphabet = list(SP.values()) + list(KWSP.values()) + ["x", "é", "名", "_1", "match", "case", "type", "0", "1.5", "0x_f", "1e-3", "2j", "'s'", 'b"b"', "f'{x}'", "r'\\'",
+                                                           "\U0001F600", "\u231A", "\u2614", "\U0001F9E0", "# c", "\\\n", "\n", "\n  ", "\n\t", " ", "  ", "\x0c"]
+    for i in range(6000 if thorough else 800):
+        toks = [rng.choice(alphabet) for _ in range(rng.randint(1, 12))]
+        items.append(("soup:%d" % i, rng.choice(["", " "]).join(toks) + rng.choice(["", "\n"]), "exec"))
     for lv in (1, 10, 100, 200):
         items.append(("deep-indent:%d" % lv, deep_indent(lv), "exec"))
         items.append(("deep-indent-tabs:%d" % lv, deep_indent(lv, "\t"), "single"))
